@@ -62,6 +62,13 @@ class LexGrammar:
         return False
 
 
+def clex_entry(g, gid=None):
+    gid = gid or ('%s@clex' % g.name)
+    e = Entry(gid, g, 'gen', gen_tu.clex_tla_json(g, gid))
+    e.clex = True
+    return e
+
+
 def lex_entry(name, terms):
     gid = '%s@lex' % name
     e = Entry(gid, LexGrammar(name, terms), 'gen', gen_tu.lex_tla_json(gid, terms))
@@ -83,7 +90,7 @@ def run_harness(entries, workname):
     for e in gens:
         src = os.path.join(work, e.gid.replace('@', '_').replace('/', '_') + '.cpp')
         with open(src, 'w') as f:
-            f.write(gen_tu.lex_tu(e.gid, e.lexterms) if hasattr(e, 'lexterms') else gen_tu.tu_source(e.g, e.gid, getattr(e, 'dflt', ()), getattr(e, 'limits', None)))
+            f.write(gen_tu.clex_tu(e.g, e.gid) if getattr(e, 'clex', False) else gen_tu.lex_tu(e.gid, e.lexterms) if hasattr(e, 'lexterms') else gen_tu.tu_source(e.g, e.gid, getattr(e, 'dflt', ()), getattr(e, 'limits', None)))
         specs.append(('gen_' + e.gid.replace('@', '_'), src, ()))
     gbins = vlib.build_many(specs) if specs else {}
     runs = []
